@@ -495,3 +495,19 @@ func replaceSymOrTerm(t, from, to string) string {
 	}
 	return replaceSym(t, from, to)
 }
+
+// errConst: strconv.ErrRange / strconv.ErrSyntax as two distinct non-nil error values.
+func (s *Session) errConst(name string) string {
+	c := "glob_strconv_" + name
+	if !s.declSet[c] {
+		s.declare(c, "Any")
+		s.facts = append(s.facts, "(assert (> (a.tag "+c+") 0))")
+		s.factBlk = append(s.factBlk, nil)
+		if s.declSet["glob_strconv_ErrRange"] && s.declSet["glob_strconv_ErrSyntax"] {
+			s.facts = append(s.facts, "(assert (distinct glob_strconv_ErrRange glob_strconv_ErrSyntax))")
+			s.factBlk = append(s.factBlk, nil)
+		}
+		s.assume("strconv.ErrRange and strconv.ErrSyntax are distinct non-nil values that nothing reassigns")
+	}
+	return c
+}
